@@ -29,6 +29,7 @@
 #include <signal.h>
 #include <sys/time.h>
 #include <pthread.h>
+#include <sys/mman.h>
 #include "w2c2_base.h"
 #include "wasi.h"
 /* observations go to a private duplicate of stdout: histories may close the WASI descriptors 0-2 */
@@ -266,6 +267,32 @@ int main(int argc, char** argv) {
             if (nt > 5) { U32 np = (U32)strtoul(tok[4], 0, 10), nb = (U32)strtoul(tok[5], 0, 10); memset(mem->data + pa, 0xEE, np); memset(mem->data + ba, 0xEE, nb); }
             else memset(mem->data + BIG, 0xEE, 0x4000);
             memcpy(before, mem->data, MEMSIZE); err = CALL(abi, environ_get, (NULL, pa, ba)); }
+        else if (!strcmp(cmd, "bigargs") || !strcmp(cmd, "bigenv")) {
+            /* bigargs|bigenv ABI ptrs buf: the same calls in a memory of 65536 pages (4 GiB of address space, reserved, touched only where
+             * the call writes): any placement a 32-bit guest address can name.  Reports the pointer array, the string area and whether the
+             * 16 bytes on either side of both stayed as they were. */
+            static wasmMemory bigm; wasmMemory* small = mem; int isargs = cmd[3] == 'a';
+            unsigned long long pa = strtoull(tok[2], 0, 10), ba = strtoull(tok[3], 0, 10), q; U32 count, total, k2; int guards = 1;
+            if (!bigm.data) {
+                bigm.data = mmap(NULL, (size_t)1 << 32, PROT_READ | PROT_WRITE, MAP_PRIVATE | MAP_ANONYMOUS | MAP_NORESERVE, -1, 0);
+                if (bigm.data == MAP_FAILED) { printf("{\"i\":%d,\"call\":\"%s\",\"nomem\":true}\n", callno, cmd); bigm.data = NULL; continue; }
+                bigm.pages = bigm.maxPages = 65536; bigm.size = 0;
+            }
+            mem = &bigm;
+            err = isargs ? CALL(abi, args_sizes_get, (NULL, R1, R2)) : CALL(abi, environ_sizes_get, (NULL, R1, R2));
+            memcpy(&count, bigm.data + R1, 4); memcpy(&total, bigm.data + R2, 4);
+#define WIN(lo, n, body) for (q = (lo) >= 16 ? (lo) - 16 : 0; q < (lo) + (n) + 16 && q < (1ULL << 32); q++) { body; }
+            WIN(pa, 4ULL * count, bigm.data[q] = 0xEE) WIN(ba, (unsigned long long)total, bigm.data[q] = 0xEE)
+            if (!err) err = isargs ? CALL(abi, args_get, (NULL, (U32)pa, (U32)ba)) : CALL(abi, environ_get, (NULL, (U32)pa, (U32)ba));
+            WIN(pa, 4ULL * count, if ((q < pa || q >= pa + 4ULL * count) && !(q >= ba && q < ba + total) && bigm.data[q] != 0xEE) guards = 0)
+            WIN(ba, (unsigned long long)total, if ((q < ba || q >= ba + total) && !(q >= pa && q < pa + 4ULL * count) && bigm.data[q] != 0xEE) guards = 0)
+            printf("{\"i\":%d,\"call\":\"%s\",\"errno\":%u,\"count\":%u,\"total\":%u,\"guards\":%s,\"ptrs\":[", callno, cmd, err, count, total, guards ? "true" : "false");
+            for (k2 = 0; k2 < count; k2++) { U32 v_; memcpy(&v_, bigm.data + pa + 4ULL * k2, 4); printf("%s%u", k2 ? "," : "", v_); }
+            printf("],\"bytes\":\"");
+            for (k2 = 0; k2 < total; k2++) printf("%02x", bigm.data[ba + k2]);
+            printf("\"}\n"); OBS_FLUSH();
+            mem = small; continue;
+        }
         else if (!strcmp(cmd, "clock")) {
             /* the same clock is read by this thread before and after the call: the WASI value must lie in between */
             struct timespec t0, t1; unsigned long wid = strtoul(tok[2], 0, 10);
